@@ -98,7 +98,10 @@ def install_recentre_monitor(ctx, current_case):
                 fin = torch.isfinite(b) & torch.isfinite(a)
                 sn = sens.get(n)
                 sn = torch.nan_to_num(sn, nan=0.0, posinf=0.0)[fin] if sn is not None else 0.0
-                tol = (1e-5 if n in ("model",) else 1e-5 + 1e-5 * torch.maximum(a.abs(), b.abs())[fin]) + 2e-4 * sn
+                # attachment totals are cancelling float32 sums (quadratic terms + log-scale terms): their rounding noise scales with the largest
+                # term of the tensor, not with the entry itself (0.82 next to 130 moved by 4.5e-5 on the unchanged tree, thorough tier)
+                scale = float(torch.clamp(b[fin].abs().max(), max=1e6)) if bool(fin.any()) else 0.0
+                tol = (1e-5 if n in ("model",) else 1e-5 + 1e-5 * torch.maximum(a.abs(), b.abs())[fin] + 2e-6 * scale) + 2e-4 * sn
                 d = (a - b).abs()[fin]
                 if d.numel() and bool((d > tol).any()):
                     ctx.violation("recentre/not-a-gauge-change", f"re-centring changed '{n}' (max abs change {float(d.max()):.3g}, |mean xi| was {float(xi0.mean().abs()):.3g})",
